@@ -2,6 +2,7 @@ import OhkamiModel.Drv.Common
 import OhkamiModel.M.RouterFull
 import OhkamiModel.P.Chain
 import OhkamiModel.M.HttpObs
+import OhkamiModel.P.Fangs
 /-! C01 / C04 driver.  case = {"app": App, "stop": int|null, "reqs": [{"m","p"}]}  (App as in harness/src/apps.rs).
 Per request: the per-method application tree -> `build` -> `finalize` (repaired rule) -> `searchP` -> handler, params, trace.
 `spec` = `greedyChain` on the flattened routes (exact when no application has fangs: then compression is unrestricted). -/
@@ -55,12 +56,20 @@ def handleOne (app : App) (cfg : Cfg) (stop : Option Nat) (m : String) (p : Byte
   match build app with
   | none => Json.mkObj [("build", "refused")]
   | some t =>
+    let passes0 := fun f => some f != stop
     let segs := Ohkami.segments (Ohkami.normalize p)
     let fuel := segs.length + 40
-    let (fs, h, caps) := searchP fuel (finalize true fuel t false) segs []
+    -- fangs and handler come from `search`, the function the theorems of C04 are about (`C04.scope`); `searchP` (the loop shaped like
+    -- `search_target`, which also collects the params) must agree with it: `internal`
+    let (fsP, hP, caps) := searchP fuel (finalize true fuel t false) segs []
+    let (fs, h) := search fuel (finalize true fuel t false) segs
+    let hyp := sideCond app && decide (idsOf app).Nodup
+    let chain := scopeChain app segs
+    let specTr := (onion passes0 ((chain.flatMap fun a => (cfg.fangsOf.lookup a).getD []) ++
+        (match h with | some hid => (cfg.localOf.lookup hid).getD [] | none => [])) h).filter (· != .handler none)
     let outer := fs.reverse.flatMap fun a => (cfg.fangsOf.lookup a).getD []
     let loc := match h with | some hid => (cfg.localOf.lookup hid).getD [] | none => []
-    let passes := fun f => some f != stop
+    let passes := passes0
     let tr := (onion passes (outer ++ loc) h).filter (· != .handler none)
     let ran := tr.contains (.handler h) && h.isSome
     let stopped := tr.any fun e => match e with | .enter f => some f == stop | _ => false
@@ -73,6 +82,8 @@ def handleOne (app : App) (cfg : Cfg) (stop : Option Nat) (m : String) (p : Byte
       ("spec", match spec with
         | some (h', ps) => Json.mkObj [("handler", h'), ("params", Json.arr ((ps.take 2).map fun c => hexJ (Http.utf8Lossy (Percent.decode c))).toArray)]
         | none => Json.null),
+      ("internal", fsP == fs && hP == h), ("scope_hyp", hyp),
+      ("scope_trace", Json.arr (specTr.map fun e => Json.str (evStr e)).toArray),
       ("spec_exact", !cfg.anyFangs && (match app with | .mk _ _ _ mounts => mounts.isEmpty))]
 
 def runCase (j : Json) : Except String Json := do
